@@ -512,8 +512,221 @@ fn gen_exhaustive_pool(emit: &mut dyn FnMut(Value), max_k: usize, pool: &[Pat], 
     }
 }
 
+// ---------------------------------------------------------------------------------------------
+// diff-directed search hints (VERIF_HINTS): sizes n-1, n, n+1 and literals mentioned by the changed source lines
+// ---------------------------------------------------------------------------------------------
+
+const ALL_TREE_MODES: &[&str] = &["beh", "snap", "real", "trace", "rx"];
+
+/// Hinted strings plus their upper / lower-cased variants (deduplicated, non-empty).
+pub fn hint_strings(h: &Hints) -> Vec<String> {
+    let mut out: Vec<String> = Vec::new();
+    for t in &h.strs {
+        for v in [t.clone(), t.to_uppercase(), t.to_lowercase()] {
+            if !v.is_empty() && !out.contains(&v) {
+                out.push(v);
+            }
+        }
+    }
+    out
+}
+
+/// The model's case folding covers ASCII and a fixed set of letters: with other cased non-ASCII characters run case-sensitively.
+fn hint_ic_ok(t: &str) -> bool {
+    t.chars().all(|c| c.is_ascii() || "éÉüÜжЖσΣςßẞſİǅ".contains(c) || (!c.is_lowercase() && !c.is_uppercase()))
+}
+
+fn ins(p: &Pat, id: &str, v: usize) -> Value {
+    json!(["i", pat_json(p), id, v])
+}
+
+/// Hint-directed histories for the tree (all tree modes).  `cache_dense`: interleave cache ops (C12).
+pub fn gen_hinted_tree(h: &Hints, rng: &mut Prng, emit: &mut dyn FnMut(Value), cache_dense: bool) {
+    let l = |s: &str| Tok::L(s.to_string());
+    let g = |s: &str| Tok::G(s.to_string());
+    let sizes = h.sizes(48);
+    let cache_ops = |n: usize| -> Vec<Value> {
+        let mut v = Vec::new();
+        for lim in [n.saturating_sub(1), n, n + 1] {
+            v.push(json!(["c", lim, Value::Null]));
+            for lvl in [n.saturating_sub(1), n, n + 1] {
+                if lvl <= 6 {
+                    v.push(json!(["c", lim, lvl]));
+                }
+            }
+        }
+        v
+    };
+    let emit_hist = |emit: &mut dyn FnMut(Value), pool: &[Pat], mut ops: Vec<Value>, extra_hay: &[String], ic: bool, unique: bool, rng: &mut Prng| {
+        if cache_dense {
+            // a warm-up after every third op
+            let mut with = Vec::new();
+            for (i, o) in ops.iter().enumerate() {
+                with.push(o.clone());
+                if i % 3 == 2 {
+                    with.push(json!(["c", *rng.pick(&[1u64, 2, 3, 100]), Value::Null]));
+                }
+            }
+            ops = with;
+        }
+        let mut hay = haystacks(pool, rng, 6);
+        hay.extend(extra_hay.iter().cloned());
+        hay.truncate(12);
+        emit_modes(emit, ic, unique, &ops, &hay, false, ALL_TREE_MODES);
+    };
+    for &n in &sizes {
+        // (a) n patterns under one node (diverge right after a shared prefix) and as a chain (tree depth n-1)
+        let wide: Vec<Pat> = (0..n).map(|i| vec![l("/p/"), g("?:[a-z]+"), l(&format!("/{i:03}"))]).collect();
+        let mut ops: Vec<Value> = wide.iter().enumerate().map(|(i, p)| ins(p, &format!("i{i}"), i)).collect();
+        ops.extend(cache_ops(n));
+        ops.push(json!(["r", "i0"]));
+        ops.push(json!(["k", (1..n).step_by(2).map(|i| format!("i{i}")).collect::<Vec<_>>()]));
+        emit_hist(emit, &wide, ops, &[], false, false, rng);
+        let chain: Vec<Pat> = (0..n.min(24)).map(|i| (0..=i).map(|j| l(&format!("/{}", (b'a' + (j % 26) as u8) as char))).collect()).collect();
+        let mut ops: Vec<Value> = chain.iter().enumerate().map(|(i, p)| ins(p, &format!("i{i}"), i)).collect();
+        ops.extend(cache_ops(n));
+        for i in (0..chain.len()).rev().step_by(2) {
+            ops.push(json!(["r", format!("i{i}")]));
+        }
+        emit_hist(emit, &chain, ops, &[], rng.chance(1, 2), false, rng);
+        // (b) n ids in one leaf (+ a sibling), value updates, mutating retain, removals
+        let p0: Pat = vec![l("/ids/"), g("?:x")];
+        let p1: Pat = vec![l("/ids/"), g("?:x"), l("/y")];
+        let mut ops: Vec<Value> = (0..n).map(|i| ins(&p0, &format!("i{i}"), i)).collect();
+        ops.push(ins(&p1, "z", 999));
+        ops.push(ins(&p0, &format!("i{}", n - 1), 777)); // replace
+        ops.push(json!(["u", pat_json(&p0), 1000]));
+        ops.push(json!(["m", (0..n).filter(|i| i % 3 != 0).map(|i| format!("i{i}")).collect::<Vec<_>>(), 100]));
+        ops.extend(cache_ops(n).into_iter().take(4));
+        for i in 0..n {
+            ops.push(json!(["r", format!("i{i}")]));
+        }
+        emit_hist(emit, &[p0, p1], ops, &[], false, false, rng);
+        // (c) shared literal prefix of n chars – ASCII (n bytes) and non-ASCII (n chars = 2n bytes; n bytes = n/2 chars) –
+        //     with the divergence at n-1, n, n+1, re-insert of the pattern that equals the node prefix (D11 shape)
+        for unit in ["a", "é", "日", "\\", "."] {
+            let reps = if unit == "a" || unit.len() == 1 { vec![n] } else { vec![n, (n / unit.len()).max(1)] };
+            for k in reps {
+                let pre: String = unit.repeat(k);
+                let pa: Pat = vec![l("/"), l(&pre)];
+                let pb: Pat = vec![l("/"), l(&pre), g("?:[0-9]+")];
+                let pc: Pat = vec![l("/"), l(&pre), l("x")];
+                let pd: Pat = vec![l("/"), l(&unit.repeat(k.saturating_sub(1))), l("z")];
+                let ops = vec![ins(&pb, "b", 1), ins(&pa, "a", 2), ins(&pa, "a", 3), ins(&pc, "c", 4), ins(&pd, "d", 5), json!(["c", n, Value::Null]),
+                    ins(&pa, "a2", 6), json!(["r", "a"]), ins(&pb, "b", 7), json!(["r", "d"])];
+                emit_hist(emit, &[pa, pb, pc, pd], ops, &[format!("/{pre}"), format!("/{pre}7"), format!("/{}", unit.repeat(k + 1))], false, rng.chance(1, 4), rng);
+            }
+        }
+        // (d) group nesting depth n, bounded repetition {n-1,n+1}, class of n ranges
+        if n <= 14 {
+            let nested = format!("?:{}x{}", "(?:".repeat(n), ")".repeat(n));
+            let cap = format!("{}x{}", "(".repeat(n.saturating_sub(1)), ")".repeat(n.saturating_sub(1)));
+            let rep = format!("?:[a-z]{{{},{}}}", n.saturating_sub(1), n + 1);
+            let pool: Vec<Pat> = vec![vec![l("/n"), g(&nested)], vec![l("/n"), g(&nested), l("/t")], vec![l("/n"), g(&cap), l("u")], vec![l("/r"), g(&rep)], vec![l("/r"), g(&rep), l("-")]];
+            let ops: Vec<Value> = pool.iter().enumerate().map(|(i, p)| ins(p, &format!("i{i}"), i)).collect();
+            emit_hist(emit, &pool, ops, &["/nx".to_string(), "/nx/t".to_string(), format!("/r{}", "a".repeat(n)), format!("/r{}", "a".repeat(n + 2)), format!("/r{}", "a".repeat(n.saturating_sub(2)))], false, false, rng);
+        }
+        // (e) n ops of a random history; haystacks of n chars / n bytes
+        let pool = pattern_pool(rng, false);
+        let ops = history(&pool, false, rng, n, if cache_dense { 8 } else { 3 });
+        emit_hist(emit, &pool, ops, &["a".repeat(n), "é".repeat(n), "é".repeat((n / 2).max(1)), format!("/{}", "🤘".repeat((n / 4).max(1)))], rng.chance(1, 2), false, rng);
+        // scanner: n-deep parentheses, n backslashes
+        for (a, b) in [("(".repeat(n) + "a" + &")".repeat(n), "(".repeat(n) + "b"), ("\\".repeat(n) + "(a)", "\\".repeat(n) + "(b)"), ("é".repeat(n) + "(x)y", "é".repeat(n) + "(x)z"),
+            (")".repeat(n) + &"(".repeat(n) + "a", ")".repeat(n) + &"(".repeat(n) + "b")] {
+            for k in [n.saturating_sub(1), n, n + 1] {
+                emit(json!({"mode": "cp", "a": a, "b": b, "n": k}));
+            }
+        }
+    }
+    // strings: as literal, next to / inside a group, as id, in haystacks, at the divergence point, in the scanner
+    for t in hint_strings(h) {
+        let ic = hint_ic_ok(&t) && rng.chance(1, 2);
+        let esc = regex::escape(&t);
+        let pool: Vec<Pat> = vec![
+            vec![l("/"), l(&t)],
+            vec![l("/"), l(&t), g("?:[a-z]+")],
+            vec![l("/"), l(&t), g("?:[a-z]+"), l(&t)],
+            vec![l("/"), g(&format!("?:{esc}|x")), l("/e")],
+            vec![l("/"), g(&format!("?:{esc}|x")), l("/f")],
+            vec![l("/"), l(&t), l(&t)],
+            vec![l("/q"), g("?:.*"), l(&t)],
+        ];
+        let ids: Vec<String> = vec![t.clone(), format!("{t}{t}"), "i2".into(), "i3".into(), "i4".into(), format!("x{t}"), "i6".into()];
+        let mut ops: Vec<Value> = pool.iter().zip(ids.iter()).enumerate().map(|(i, (p, id))| ins(p, id, i)).collect();
+        ops.push(ins(&pool[0], &t, 50));
+        ops.push(json!(["c", 3, Value::Null]));
+        ops.push(json!(["u", pat_json(&pool[1]), 500]));
+        ops.push(json!(["m", [t.clone(), format!("x{t}"), "i3"], 100]));
+        ops.push(json!(["r", t.clone()]));
+        ops.push(json!(["k", [format!("x{t}")]]));
+        let hay = vec![format!("/{t}"), format!("/{t}abc"), format!("/{t}abc{t}"), format!("/{t}/e"), format!("/x/f"), format!("/{t}{t}"), format!("/q{t}"), format!("/q/{t}{t}"), t.clone(), format!("/{}", t.to_uppercase())];
+        emit_hist(emit, &pool, ops.clone(), &hay, ic, false, rng);
+        // the same patterns in a unique map (id = pattern)
+        let uops: Vec<Value> = pool.iter().enumerate().map(|(i, p)| ins(p, "", i)).chain(std::iter::once(json!(["r", render(&pool[0])]))).collect();
+        emit_hist(emit, &pool, uops, &hay, ic, true, rng);
+        for (a, b) in [(format!("{esc}(a)"), format!("{esc}(b)")), (format!("({esc})a"), format!("({esc})b")), (t.clone(), t.clone()), (format!("a{t}"), format!("a{t}{t}")), (format!("{t}\\("), format!("{t}\\)"))] {
+            emit(json!({"mode": "cp", "a": a, "b": b, "n": t.chars().count()}));
+        }
+    }
+}
+
+/// Hint-directed cases for the ip / date / time / week-day primitives.
+pub fn gen_hinted_prim(h: &Hints, emit: &mut dyn FnMut(Value)) {
+    for &n in &h.sizes(200) {
+        let n32 = n as u32;
+        if n <= 129 {
+            // prefix length n (both families), address just inside / outside
+            if n <= 33 {
+                let mask: u32 = if n == 0 || n > 32 { u32::MAX } else { u32::MAX << (32 - n32.min(32)) };
+                let base = 0xC0A8_5A5Au32 & mask;
+                for addr in [base, base | !mask, (base | !mask).wrapping_add(1), base.wrapping_sub(1)] {
+                    emit(json!({"mode": "prim", "kind": "ip", "cidr": format!("{}/{}", v4_text(base), n), "neg": false, "addr": v4_text(addr)}));
+                }
+            }
+            let mask: u128 = if n == 0 || n > 128 { u128::MAX } else { u128::MAX << (128 - n32.min(128)) };
+            let base = 0x2001_0db8_85a3_5a5a_a5a5_8a2e_0370_7334u128 & mask;
+            for addr in [base, base | !mask, (base | !mask).wrapping_add(1), base.wrapping_sub(1)] {
+                emit(json!({"mode": "prim", "kind": "ip", "cidr": format!("{}/{}", v6_text(base), n), "neg": n % 2 == 1, "addr": v6_text(addr)}));
+            }
+        }
+        if n <= 256 {
+            emit(json!({"mode": "prim", "kind": "ip", "cidr": format!("{n}.0.0.0/8"), "neg": false, "addr": format!("{n}.1.2.3")}));
+            emit(json!({"mode": "prim", "kind": "ip", "cidr": format!("10.0.0.{n}"), "neg": false, "addr": format!("10.0.0.{n}")}));
+        }
+        // hour / minute / second / day / month = n
+        for (s, e, at) in [
+            (format!("{:02}:00:00", n % 100), format!("{:02}:00:00", (n + 1) % 100), format!("2024-01-01T{:02}:00:00Z", n % 24)),
+            (format!("00:{:02}:00", n % 100), format!("00:{:02}:00", (n + 1) % 100), format!("2024-01-01T00:{:02}:00Z", n % 60)),
+            (format!("00:00:{:02}", n % 100), format!("00:00:{:02}", (n + 1) % 100), format!("2024-01-01T00:00:{:02}Z", n % 60)),
+        ] {
+            emit(json!({"mode": "prim", "kind": "time", "start": s, "end": e, "at": at}));
+        }
+        emit(json!({"mode": "prim", "kind": "dt", "start": format!("2024-01-{:02}T00:00:00Z", n % 100), "end": format!("2024-{:02}-01T00:00:00Z", n % 100), "at": format!("2024-01-{:02}T00:00:00Z", (n % 28) + 1)}));
+        let names = ["Mon", "Tue", "Wed", "Thu", "Fri", "Sat", "Sun"];
+        let days: Vec<&str> = (0..n.min(20)).map(|i| names[i % 7]).collect();
+        emit(json!({"mode": "prim", "kind": "wd", "days": days, "at": "2024-02-29T12:00:00Z"}));
+        emit(json!({"mode": "prim", "kind": "wdcmp", "a": days, "b": days[..days.len() - 1].to_vec()}));
+    }
+    for t in hint_strings(h) {
+        for cidr in [t.clone(), format!("10.0.0.0/{t}"), format!("{t}/8"), format!("10.0.0.0{t}/8")] {
+            emit(json!({"mode": "prim", "kind": "ip", "cidr": cidr, "neg": false, "addr": "10.1.2.3"}));
+        }
+        emit(json!({"mode": "prim", "kind": "ip", "cidr": "10.0.0.0/8", "neg": true, "addr": t}));
+        for (s, e) in [(json!(t), Value::Null), (Value::Null, json!(t)), (json!(format!("2024-01-01T00:00:00{t}")), json!("2025-01-01T00:00:00Z"))] {
+            emit(json!({"mode": "prim", "kind": "dt", "start": s, "end": e, "at": "2024-06-01T00:00:00Z"}));
+        }
+        emit(json!({"mode": "prim", "kind": "time", "start": t, "end": format!("12:00:00{t}"), "at": "2024-06-01T06:00:00Z"}));
+        emit(json!({"mode": "prim", "kind": "wd", "days": [t.clone(), "Mon".to_string(), format!("Mon{t}")], "at": "2024-06-03T06:00:00Z"}));
+    }
+}
+
 fn gen(args: &Args, emit: &mut dyn FnMut(Value)) {
     let mut rng = Prng::new(args.seed);
+    let h = hints();
+    if !h.is_empty() {
+        gen_hinted_tree(&h, &mut rng, emit, false);
+        gen_hinted_prim(&h, emit);
+    }
     // groups with a parenthesis inside a class (known finding class-paren): always with --class-paren, else in ~4% of the pools
     let class_paren_all = args.extra.iter().any(|a| a == "--class-paren");
     // scanner cases
